@@ -348,8 +348,8 @@ def _(c):
 def _eop_setup():
     from beyond.config import config
     from beyond.dates.eop import EopDb
-    config.update({"eop": {"folder": "/repo/tests/data/pole", "type": "all", "missing_policy": "pass"}})
-    EopDb.clear() if hasattr(EopDb, "clear") else None
+    from contracts.eopcfg import use_eop
+    use_eop(real=True)
 
 
 def _grid_range(tier, rng):
